@@ -279,7 +279,7 @@ def plan_C12(prop, tier, seed, t0):
     T = dict(module="Trace_Eq.tla", cfg="Trace_Eq.cfg")
     traces = [
         dict(name="enum", engine="eqcheck", args=["--enum", "1,2,small_unitary", "--enum", "2,1,small_unitary", "--stride", 2 if q else 1], **T),
-        dict(name="rand", engine="eqcheck", args=["--random", 120 if q else 2500, "--alphabet", "unitary", "--maxq", 3, "--maxlen", 7], **T),
+        dict(name="rand", engine="eqcheck", args=["--random", 400 if q else 2500, "--alphabet", "unitary", "--maxq", 3, "--maxlen", 7], **T),
     ]
     return run_plan(prop, tier, seed, t0, mcs, traces, "model_checking", COMMON_ASSUME,
                     "MC: the checker's algorithm (adjoint, plug, every firing order of full_simp, identity test, scalar test) on every pair of "
@@ -296,7 +296,7 @@ def plan_C03(prop, tier, seed, t0):
     cli = ["--quizx-bin", QUIZX_BIN, "--cli-every", 6 if q else 3]
     traces = [
         dict(name="enum", engine="extract", args=["--enum", "2,2,small_unitary", "--enum", "1,2,small_unitary", "--stride", 3 if q else 1] + cli, **T),
-        dict(name="rand", engine="extract", args=["--random", 150 if q else 3000, "--alphabet", "unitary", "--maxq", 3, "--maxlen", 9] + cli
+        dict(name="rand", engine="extract", args=["--random", 500 if q else 3000, "--alphabet", "unitary", "--maxq", 3, "--maxlen", 9] + cli
              + ([] if q else ["--thorough"]), **T),
         dict(name="rand4", engine="extract", args=["--random", 40 if q else 800, "--alphabet", "unitary", "--maxq", 4, "--maxlen", 12] + cli, **T),
     ]
